@@ -116,6 +116,12 @@ def one_build(ctx, res, w, assign, out_state, out_ext, lines, expect, cases, con
             path = w.new_cart('.p8')
             argv += ['--' + s, path, '--empty-' + s]
             model_secs[i] = '%d,1,1,1,0' % (i + 1)
+        elif kind == 'both-self':
+            argv += ['--' + s, rng.choice([out, os.path.relpath(out), os.path.join(os.path.dirname(out), '.', os.path.basename(out))]), '--empty-' + s]       # the source is OUT itself
+            model_secs[i] = '%d,1,%d,1,0' % (i + 1, 1 if prev is not None else 0)
+        elif kind == 'missing-self':
+            argv += ['--' + s, rng.choice([out, os.path.relpath(out)])]        # OUT itself, which does not exist (only used with OUT absent)
+            model_secs[i] = '%d,0,0,1,0' % (i + 1)
         elif kind == 'missing':
             argv += ['--' + s, os.path.join(ctx.tmp, 'does_not_exist.p8')]
             model_secs[i] = '%d,0,0,1,0' % (i + 1)
@@ -262,8 +268,10 @@ def run(ctx, res):
         one_build(ctx, res, w, a, out_state, out_ext, lines, expect, cases)
         res.count('builds')
     for s in SECS:
-        for kind in ('both', 'missing', 'ext', 'empty', 'empty-both') + (('luaext',) if s != 'lua' else ()):
+        for kind in ('both', 'missing', 'ext', 'empty', 'empty-both', 'both-self', 'missing-self') + (('luaext',) if s != 'lua' else ()):
             for out_state in ('absent', 'exists'):
+                if kind == 'missing-self' and out_state == 'exists':
+                    continue
                 a = dict((t, rng.choice(['u', 'e'])) for t in SECS)
                 a[s] = 'u'
                 one_build(ctx, res, w, a, out_state, rng.choice(['.p8', '.p8.png']), lines, expect, cases, conflict=(s, kind))
